@@ -1033,9 +1033,16 @@ evhttp_handle_chunked_read(struct evhttp_request *req, struct evbuffer *buf)
 			char *endp;
 			int error;
 			size_t len_p;
-			if (p == NULL)
+			if (p == NULL) {
+				if (buflen > req->evcon->max_headers_size)
+					return (DATA_TOO_LONG);
 				break;
+			}
 			len_p = strlen(p);
+			if (len_p > req->evcon->max_headers_size) {
+				mm_free(p);
+				return (DATA_TOO_LONG);
+			}
 			/* the last chunk is on a new line? */
 			if (len_p == 0) {
 				mm_free(p);
